@@ -3,6 +3,8 @@ package variablesvalidation
 import (
 	"bytes"
 	"fmt"
+	"math"
+	"strconv"
 
 	"github.com/wundergraph/astjson"
 
@@ -431,6 +433,19 @@ func (v *variablesVisitor) violatesOneOfConstraint(inputObjectDefRef int, jsonVa
 	return true
 }
 
+// jsonNumberIsInteger reports whether a JSON number has an integral value (1, 1.0 and 1e3 do, 1.5 does not).
+func jsonNumberIsInteger(value *astjson.Value) bool {
+	f, err := strconv.ParseFloat(string(value.MarshalTo(nil)), 64)
+	return err == nil && f == math.Trunc(f) && !math.IsInf(f, 0)
+}
+
+// jsonNumberIsInt32 reports whether a JSON number has an integral value in the signed 32-bit
+// range, which is what the GraphQL Int type can represent.
+func jsonNumberIsInt32(value *astjson.Value) bool {
+	f, err := strconv.ParseFloat(string(value.MarshalTo(nil)), 64)
+	return err == nil && f == math.Trunc(f) && f >= math.MinInt32 && f <= math.MaxInt32
+}
+
 func (v *variablesVisitor) traverseNamedTypeNode(jsonValue *astjson.Value, typeName []byte) {
 	if v.err != nil {
 		return
@@ -485,7 +500,7 @@ func (v *variablesVisitor) traverseNamedTypeNode(jsonValue *astjson.Value, typeN
 				return
 			}
 		case "Int":
-			if jsonValue.Type() != astjson.TypeNumber {
+			if jsonValue.Type() != astjson.TypeNumber || !jsonNumberIsInt32(jsonValue) {
 				v.renderVariableInvalidNestedTypeError(jsonValue, fieldTypeDefinitionNode.Kind, typeName, false)
 				return
 			}
@@ -500,7 +515,7 @@ func (v *variablesVisitor) traverseNamedTypeNode(jsonValue *astjson.Value, typeN
 				return
 			}
 		case "ID":
-			if jsonValue.Type() != astjson.TypeString && jsonValue.Type() != astjson.TypeNumber {
+			if jsonValue.Type() != astjson.TypeString && (jsonValue.Type() != astjson.TypeNumber || !jsonNumberIsInteger(jsonValue)) {
 				v.renderVariableInvalidNestedTypeError(jsonValue, fieldTypeDefinitionNode.Kind, typeName, false)
 				return
 			}
